@@ -2044,6 +2044,7 @@ static int parse_table(struct scanner_s *scanner, cif_value_tp **tablep) {
                             TVALUE_LENGTH(scanner), &value)) == CIF_OK) {
                         result = cif_value_get_text(value, &key);
                         cif_value_free(value); /* ignore any error */
+                        value = NULL;
                         CONSUME_TOKEN(scanner);
                         if (result == CIF_OK) {
                             break;
@@ -2099,6 +2100,7 @@ static int parse_table(struct scanner_s *scanner, cif_value_tp **tablep) {
                 }
                 /* recover by dropping the entry: its value is scanned into a scratch object */
                 key = NULL;
+                value = NULL;  /* a text-block key may have left a stale pointer here */
             } else if ((result != CIF_OK) || ((result = cif_value_get_item_by_key(table, key, &value)) != CIF_OK)) {
                 free(key);
                 break;
